@@ -1,1 +1,10 @@
 //! Verification hooks (`--cfg rustrtc_verif` only): decoders.
+
+/// C07: crate-private pure byte walkers of the shared UDP/TCP demux.
+pub fn username_from_stun_bytes(bytes: &[u8]) -> Option<String> {
+    crate::transports::ice::shared_tcp::username_from_stun_bytes(bytes)
+}
+
+pub fn peer_ufrag_from_binding_request(bytes: &[u8]) -> Option<String> {
+    crate::transports::ice::shared_tcp::peer_ufrag_from_binding_request(bytes)
+}
